@@ -32,6 +32,7 @@ CONSTANTS MaxLen,       \* inputs are Prefix \o s for every s of length 0..MaxLe
           EODs,         \* subset of BOOLEAN: does the writer end with the EOD code
           ECs,          \* subset of {0, 1}: the writer's /EarlyChange
           Defers,       \* codes written from a full table before the deferred clear (0 = clear at once)
+          MaxXC,        \* the optional extra clear stands at most this far into the enumerated part of the input
           Trails,       \* numbers of bytes after EOD
           TrailBytes,   \* their values
           Dev
@@ -105,7 +106,8 @@ vars == <<x, xc, eod, ec, defer, trail, enc, inpos, buff, bpos, nbits, table, pr
 
 Inputs == {Prefix \o s : s \in UNION {[1..m -> 0..(Alpha - 1)] : m \in 0..MaxLen}}
 
-Init == /\ x \in Inputs /\ xc \in 0..(IF Len(x) = 0 THEN 0 ELSE Len(x) - 1) /\ eod \in EODs
+\* (the optional clear is placed anywhere in the enumerated part of the input, not inside the fixed prefix)
+Init == /\ x \in Inputs /\ xc \in {0} \cup {p \in Len(Prefix)..(Len(x) - 1) : p <= Len(Prefix) + MaxXC} /\ eod \in EODs
         /\ ec \in ECs /\ defer \in Defers
         /\ trail \in IF eod THEN {<<>>} \cup {[k \in 1..m |-> b] : m \in Trails \ {0}, b \in TrailBytes} ELSE {<<>>}
         /\ enc = Encode(x, xc, eod, ec, defer) \o trail
@@ -194,5 +196,6 @@ NoError == err = "none"
 
 EmitTerminal ==
   pc = "done" => PrintT("@@" \o ToJson([x |-> x, xc |-> xc, eod |-> eod, ec |-> ec, df |-> defer, tr |-> trail,
-                                        enc |-> enc, h |-> hist, o |-> out, e |-> err, trig |-> trig]))
+                                        enc |-> enc, cs |-> Codes(x, xc, eod, ec, defer), h |-> hist, o |-> out,
+                                        e |-> err, trig |-> trig]))
 =============================================================================
